@@ -33,6 +33,11 @@ type CtlCase struct {
 	// FailNetErr: the failing handler returns a temporary net.Error instead
 	// of a plain error.
 	FailNetErr bool `json:"fail_net_err,omitempty"`
+	// Reinstall: the handler of control frame ReinstallAt replaces all three
+	// handlers from inside the handler (SetPingHandler etc.); every later
+	// frame must reach the new set.
+	Reinstall   bool `json:"reinstall,omitempty"`
+	ReinstallAt int  `json:"reinstall_at,omitempty"`
 }
 
 var errHandler = errors.New("harness: handler says no")
@@ -69,6 +74,9 @@ func genCtlCase(t *rapid.T) CtlCase {
 	c.TightLimit = rapid.IntRange(0, 3).Draw(t, "tight_limit") == 0
 	c.StaleWriteDeadline = rapid.IntRange(0, 3).Draw(t, "stale_wdl") == 0
 	c.FailNetErr = rapid.Bool().Draw(t, "fail_net_err")
+	if rapid.IntRange(0, 2).Draw(t, "reinstall") == 0 {
+		c.Reinstall, c.ReinstallAt = true, rapid.IntRange(0, 3).Draw(t, "reinstall_at")
+	}
 	return c
 }
 
@@ -86,7 +94,7 @@ func checkC08(c CtlCase, o *Obs) error {
 	if c.FailNetErr {
 		errHandler = errHandlerNet
 	}
-	h := &handlerLog{failAt: -1, prog: prog, custom: c.Handlers == "custom", failErr: errHandler}
+	h := &handlerLog{failAt: -1, prog: prog, custom: c.Handlers == "custom", failErr: errHandler, reinstall: c.Reinstall, reinstallAfter: c.ReinstallAt}
 	nctl := len(model.Ctl)
 	if model.Close != nil {
 		nctl++
@@ -147,6 +155,9 @@ func checkC08(c CtlCase, o *Obs) error {
 	}
 	for i := 0; i < expectEvents; i++ {
 		w, g := wants[i], h.Events[i]
+		if wantGen := map[bool]int{false: 0, true: 1}[c.Reinstall && i > c.ReinstallAt]; g.Gen != wantGen {
+			return fmt.Errorf("control frame %d reached handler set %d; the handler of frame %d had replaced the handlers, so set %d serves it", i, g.Gen, c.ReinstallAt, wantGen)
+		}
 		if g.Op != w.ev.Op || g.Payload != w.ev.Payload || (w.ev.Op == wsref.OpClose && g.Code != w.ev.Code) {
 			return fmt.Errorf("control frame %d: handler saw op %d code %d payload %s; the stream has op %d code %d payload %s", i, g.Op, g.Code, abbrev([]byte(g.Payload)), w.ev.Op, w.ev.Code, abbrev([]byte(w.ev.Payload)))
 		}
